@@ -192,6 +192,7 @@ fn p_item(slots: &[Slot], thorough: bool, acc: &mut Acc, disc_out: &mut Discrimi
         })
         .collect();
 
+    let progs: Vec<Prog> = trees.iter().map(|(t, _)| Prog::Print(t.clone())).collect();
     let mut fulls: Vec<Out> = Vec::with_capacity(trees.len());
     for a in 0..n_assign {
         let bindings = fam::p_assignment(&pool, n_leaves, a);
@@ -236,7 +237,7 @@ fn p_item(slots: &[Slot], thorough: bool, acc: &mut Acc, disc_out: &mut Discrimi
                 );
             } else {
                 // reference
-                let want = refeval::outcome(&Prog::Print(t.clone()), &bindings);
+                let want = refeval::outcome(&progs[i], &bindings);
                 if let Some(m) = mismatch(&want, &full) {
                     acc.violation(
                         format!("value:P:{m}:{combo}"),
@@ -244,7 +245,14 @@ fn p_item(slots: &[Slot], thorough: bool, acc: &mut Acc, disc_out: &mut Discrimi
                         || case("full", src_of(&names[i][4])),
                     );
                 }
-                acc.count(&format!("P-reference-{}", want.class()), 1);
+                acc.count(
+                    match want {
+                        Outcome::Err => "P-reference-err",
+                        Outcome::Any => "P-reference-pinned",
+                        _ => "P-reference-ok",
+                    },
+                    1,
+                );
             }
             // literal leaves instead of variables (when every leaf value has a literal; for
             // operator triples only over the first three pool values)
@@ -375,9 +383,6 @@ fn kind_name(v: &V) -> String {
 fn main() {
     let mut run = Run::from_env("C02", "exploration");
     let thorough = run.tier.is_thorough();
-    if std::env::var("C02_DEBUG").is_ok() {
-        let _ = std::panic::take_hook();
-    }
     run.rule(
         "P: one case per (expression tree over a multiset of operator slots, leaf assignment); each case is rendered in 6 spellings \
          (minimal parentheses x 4 whitespace spellings, fully parenthesised x 2) plus 2 literal-leaf spellings when the values have literals; \
@@ -510,7 +515,7 @@ fn main() {
         ),
         |item, acc: &mut Acc| {
             let it = &s_items[item as usize];
-            let which = format!("{}:{}:{}", it.1.iter().map(|s| fam::S_SHAPES[*s]).collect::<Vec<_>>().join("."), fam::s_errors()[it.2].0, fam::S_WRAPPERS[it.3]);
+            let which = format!("{}:{}", it.1.iter().map(|s| fam::S_SHAPES[*s]).collect::<Vec<_>>().join("."), fam::S_WRAPPERS[it.3]);
             let mut n = 0u64;
             let mut sp: Option<Spellings> = None;
             fam::s_cases(it, thorough, &mut |case| {
